@@ -126,6 +126,15 @@ def oracle(ctx, obs):
                           {"kind": "interpolate_panic", "n": len(vals)}, {"values": vals, "z": fh(o["z"]), "msg": o["msg"]})
         elif k == "dom":
             oracle_dom(ctx, o)
+        elif k == "count":
+            period, L, n = fh(o["period"]), fh(o["L"]), o["n"]
+            ctx.seen(("count", o["period"], o["L"]))
+            ctx.count("count:near_integer")
+            want, comparable = expected_count(o["L"], o["period"])
+            if comparable and n != want:
+                ctx.violation("S5", f"PeriodicPoling::new({period!r} m, Off).num_domains({L!r} m) = {n}, expected ceil(L/period) = {want} "
+                              f"(L/period = {o['k']} * (1 {'+' if fh(o['e']) >= 0 else '-'} {abs(fh(o['e']))!r}))", {"kind": "count", "window": "Off"},
+                              {"period_m": period, "crystal_length_m": L, "num_domains": n, "expected": want})
         elif k == "dom_panic":
             ctx.violation("S5", f"poling_domains panicked for period {fh(o['period'])!r} m, length {fh(o['L'])!r} m, {ap_desc(o['ap'])}: {o['msg']}",
                           {"kind": "dom_panic", "window": o["ap"]["kind"]}, {"period_m": fh(o["period"]), "crystal_length_m": fh(o["L"]), "window": ap_plain(o["ap"]), "msg": o["msg"]})
@@ -151,6 +160,16 @@ def oracle(ctx, obs):
                               {"kind": "config_spelling", "spelling": o["spelling"]}, o)
 
 
+def expected_count(L_hex, period_hex):
+    """(ceil of the exact quotient of the two f64 inputs, comparable?) — not comparable only when the binary64 quotient L/period itself
+    rounds to an integer although the exact quotient is not one (then f64::ceil of the rounded quotient legitimately differs)"""
+    L, p = frac_of_hex(L_hex), abs(frac_of_hex(period_hex))
+    ratio = L / p
+    q = fh(L_hex) / abs(fh(period_hex))          # IEEE division: the correctly rounded quotient, as in Rust
+    comparable = not (q == math.floor(q) and ratio.denominator != 1)
+    return math.ceil(ratio), comparable
+
+
 def oracle_dom(ctx, o):
     period, L, ap, n = fh(o["period"]), fh(o["L"]), o["ap"], o["n"]
     ctx.seen(("dom", o["period"], o["L"], json.dumps(ap, sort_keys=True)))
@@ -158,10 +177,8 @@ def oracle_dom(ctx, o):
     base = {"period_m": period, "crystal_length_m": L, "window": ap_plain(ap), "num_domains": n}
     call = f"PeriodicPoling::new({period!r} m, {ap_desc(ap)})"
     sigk = {"window": ap["kind"]}
-    ratio = frac_of_hex(o["L"]) / abs(frac_of_hex(o["period"]))
-    want = math.ceil(ratio)
-    near = abs(ratio - round(ratio)) <= Fraction(1, 10**9) * max(1, round(ratio))
-    if n != want and not (near and abs(n - want) <= 1):
+    want, comparable = expected_count(o["L"], o["period"])
+    if comparable and n != want:
         ctx.violation("S5", f"{call}.num_domains({L!r} m) = {n}, expected ceil(L/period) = {want}", dict(kind="count", **sigk), dict(base, expected=want))
     if o["len_domains"] != n or o["len_lengths"] != n:
         ctx.violation("S5", f"{call}: domain list has {o['len_domains']} entries and the length list {o['len_lengths']}, but num_domains = {n}",
@@ -185,6 +202,8 @@ def oracle_dom(ctx, o):
         rep = dict(base, index=i, pair=[p, q], centre_z=zc, window_at_centre=a)
         if not (abs(zc - ((2 * i + 1) / n - 1)) <= TOL):
             ctx.violation("S5", f"{call}: domain {i} of {n} is evaluated at z = {zc!r}, not at its centre {(2*i+1)/n-1!r}", dict(kind="centre_z", **sigk), rep)
+        if abs(a) > 1:
+            continue   # outside the clause's scope (acos is undefined there)
         if abs(p + q - 1) > TOL or not (0 <= p <= 1 and 0 <= q <= 1):
             ctx.violation("S5", f"{call}.poling_domains({L!r} m)[{i}] = ({p!r}, {q!r}): fractions must lie in [0,1] and sum to 1", dict(kind="sum", **sigk), rep)
             continue
@@ -329,10 +348,9 @@ def correspondence(ctx, obs, label, max_win=None):
     for j, o in enumerate([o for o in obs if o["kind"] == "dom"]):
         period, L, n = frac_of_hex(o["period"]), frac_of_hex(o["L"]), o["n"]
         sp = frac_of_hex(o["stored_period"])
-        ratio = L / sp
-        near = abs(ratio - round(ratio)) <= Fraction(1, 10**9) * max(1, round(ratio))
+        _want, comparable = expected_count(o["L"], o["stored_period"])
         st = f"(On {coq_q(sp)} {'POSITIVE' if period > 0 else 'NEGATIVE'} {ap_coq(o['ap'])})"
-        if not near:
+        if comparable:
             add(f"c{j}", f"pp_num_domains {st} {coq_q(L)} = IZR ({n})%Z", "case_count", ("count", o))
         for e in o["entries"]:
             i = e["i"]
@@ -356,6 +374,11 @@ def correspondence(ctx, obs, label, max_win=None):
             else:
                 tac = "unfold domain_centre; unfold_windows; repeat split; interval with (i_prec 80)"
             add(f"d{j}_{i}", goal, tac, ("entry", o, e))
+    for j, o in enumerate([o for o in obs if o["kind"] == "count"]):
+        _want, comparable = expected_count(o["L"], o["period"])
+        if comparable:
+            st = f"(On {coq_hex(o['period'])} POSITIVE ApOff)"
+            add(f"n{j}", f"pp_num_domains {st} {coq_hex(o['L'])} = IZR ({o['n']})%Z", "case_count", ("count", dict(o, ap={"kind": "Off"})))
     ju = 0
     for o in [o for o in obs if o["kind"] == "upd"]:
         prev = o["init"]["state"]
@@ -525,8 +548,8 @@ def run(ctx):
         "Gaussian half maximum at +-FWHM/2": "proved + measured 1e-12",
         "interpolate: end samples, piecewise linear, any sample vector": "proved + measured 1e-12",
         "Off = 1": "proved",
-        "count = ceil(L/period)": "proved (real division) + measured; inputs with L/period within 1e-9 of an integer accept either neighbour (float division)",
-        "fractions in [0,1], sum 1, sin(pi d) = |a(z_c)|, d <= 1/2, order flips at the centre": "proved for window values in [-1,1] + measured (cos(2 pi d) = 1 - 2 a^2 to 1e-12)",
+        "count = ceil(L/period)": "proved (real division) + measured against the exact-rational ceiling of the f64 inputs, incl. L = k period (1 +- e), e down to 3e-9; skipped only when the binary64 quotient itself rounds to an integer",
+        "fractions in [0,1], sum 1, sin(pi d) = |a(z_c)|, d <= 1/2, order flips at the centre": "proved for window values in [-1,1] + measured (cos(2 pi d) = 1 - 2 a^2 to 1e-12), incl. windows that are negative at domain centres (widths < 1, negative samples)",
         "updates preserve the other attribute and the sign convention (all sequences)": "proved by induction over operation sequences (non-zero periods) + measured exactly",
         "config <-> runtime mapping of kinds": "proved (round trip, kinds, spellings unambiguous) + measured",
         "binary64 rounding of the window formulas": "measured (1e-12), not proved"}
